@@ -3,7 +3,7 @@ import itertools
 
 import numpy
 
-from mc.explorer import HarnessError
+from mc.explorer import HarnessError, Skip
 from mc.runner import Sub
 from models import calculus_ref as CR
 
@@ -90,6 +90,12 @@ def choose_formula(c, ctx):
         n -= 1
     for _ in range(n):
         terms.append(remaining.pop(c.choose(len(remaining))))
+    if ctx.get("literal") is not None:
+        # the parser rejects two terms that differ only in their numerical scaling ("Term already seen with a different
+        # numerical scaling"): such lists are not formulas
+        cores = [frozenset(f for f in t if f != ctx["literal"]) for t in terms]
+        if len(set(cores)) != len(cores):
+            raise Skip()
     if ctx.get("reverse_factors") and c.flag():
         terms = [tuple(reversed(t)) for t in terms]
     icpt = c.pick(ctx.get("icpts", [True, False]))
@@ -550,7 +556,7 @@ def literal_ctx(lit, base):
     if key not in _LIT_CTX:
         terms = [t for r in (1, 2, 3) for t in itertools.combinations([lit, "a", "b", "c"], r) if t != (lit,)]
         sub = dict(base)
-        sub.update(terms=terms, reverse_factors=True)
+        sub.update(terms=terms, reverse_factors=True, literal=lit)
         _LIT_CTX[key] = sub
     return _LIT_CTX[key]
 
